@@ -16,6 +16,10 @@ func init() { register("C01", checkC01) }
 var retainingCtors = map[string]bool{
 	"bytes.NewReader": true, "bytes.NewBuffer": true, "io.NopCloser": true, "io.MultiReader": true, "io.LimitReader": true,
 	"io.TeeReader": true, "io.NewSectionReader": true, "bufio.NewReader": true, "bufio.NewReaderSize": true, "bufio.NewScanner": true, "strings.NewReader": false,
+	// std-lib functions whose result is (or contains) a sub-slice of their first argument
+	"bytes.TrimRight": true, "bytes.TrimLeft": true, "bytes.Trim": true, "bytes.TrimSpace": true, "bytes.TrimPrefix": true, "bytes.TrimSuffix": true,
+	"bytes.TrimFunc": true, "bytes.TrimLeftFunc": true, "bytes.TrimRightFunc": true, "bytes.Fields": true, "bytes.Split": true, "bytes.SplitN": true,
+	"bytes.Cut": true, "bytes.CutPrefix": true, "bytes.CutSuffix": true, "slices.Clip": true, "slices.Grow": true,
 }
 
 // aliasing methods of pooled objects: result shares memory with the receiver
